@@ -7,7 +7,7 @@
 (* every (W, R, value), and prints each (W, R, hist, values) as a scenario *)
 (* that the harness replays on the real readers.                           *)
 (***************************************************************************)
-EXTENDS ResolveUniverse, Json
+EXTENDS ResolveUniverse, IeeeVectors, ResolveExamples, Json
 
 CONSTANTS MaxSteps,      \* length bound of step sequences
           DeepSeeds,     \* "all" | "quick": seeds explored to MaxSteps (the others to 1 step)
@@ -74,5 +74,7 @@ IdentityOnSelf == hist = <<>> => \A c \in Results : REq(c.x, c.v)
 SafeStepsAlwaysReadable == SafeHistory(hist) => \A c \in Results : ~IsErr(c.x)
 
 (* ---- scenario emission (one line per explored state) ---- *)
-EmitScn == PrintT("SCN " \o ToJson([W |-> W, R |-> R, hist |-> hist, vals |-> SetToSeq(ValsOf(W))]))
+(* the laws above are checked on the full boundary sets; beyond one step the replayed values are the thin sets *)
+EmitVals == IF Len(hist) <= 1 THEN ValsOf(W) ELSE RVals(W, Defs(W), 2, FALSE)
+EmitScn == PrintT("SCN " \o ToJson([W |-> W, R |-> R, hist |-> hist, vals |-> SetToSeq(EmitVals)]))
 =============================================================================
